@@ -740,6 +740,22 @@ pub fn bctr(control_flow_graph: &mut ControlFlowGraph, _: &capstone::Instr) -> R
     Ok(())
 }
 
+pub fn blr(control_flow_graph: &mut ControlFlowGraph) -> Result<(), Error> {
+    // return: branch to the link register
+    let block_index = {
+        let block = control_flow_graph.new_block()?;
+
+        block.branch(expr_scalar("lr", 32));
+
+        block.index()
+    };
+
+    control_flow_graph.set_entry(block_index)?;
+    control_flow_graph.set_exit(block_index)?;
+
+    Ok(())
+}
+
 pub fn cmpwi(
     control_flow_graph: &mut ControlFlowGraph,
     instruction: &capstone::Instr,
